@@ -63,10 +63,20 @@ def seeded_table():
     return "\n".join(rows)
 
 
+def theorem_index():
+    out = []
+    for pid in sorted(PROPS):
+        src = open(os.path.join(V, "coq", "Props", pid + ".v")).read()
+        src = re.sub(r"\(\*.*?\*\)", "", src, flags=re.S)
+        thms = re.findall(r"^\s*(?:Theorem|Corollary)\s+(\w+)", src, flags=re.M)
+        out.append("* **%s** (%d): %s" % (pid, len(thms), ", ".join("`%s`" % t for t in thms)))
+    return "\n".join(out)
+
+
 def main():
     p = os.path.join(V, "DESIGN.md")
     s = open(p).read()
-    for name, fn in (("props", props_table), ("seeded", seeded_table)):
+    for name, fn in (("props", props_table), ("seeded", seeded_table), ("theorems", theorem_index)):
         b, e = "<!-- BEGIN GENERATED %s -->" % name, "<!-- END GENERATED %s -->" % name
         if b in s:
             i, j = s.index(b) + len(b), s.index(e)
